@@ -180,8 +180,9 @@ def abbreviate(ops):
             if k in op and op[k] is not None:
                 o[k] = op[k]
         if "layout" in op:
+            ed = op["layout"]["edges"]
             o["layout"] = {"names": op["layout"]["names"], "kind": op["layout"]["kind"],
-                           "nbins": sum(len(e) - 1 for e in op["layout"]["edges"])}
+                           "nbins": ed if isinstance(ed, str) else sum(len(e) - 1 for e in ed)}
         if "chunks" in op:
             o["chunk_sizes"] = [len(c["bin1_id"]) for c in op["chunks"]]
         out.append(o)
